@@ -54,7 +54,7 @@ template <class Cont> std::string wctor(const char *contName, const std::vector<
         o << "constructor from " << contName << ": size " << g.getSize() << ", expected " << n;
         return o.str();
     }
-    std::string e = checkStructure(g, x, oc);
+    std::string e = checkEdgesOnly(g, x, oc);
     if (!e.empty()) return std::string("constructor from ") + contName + ": " + e;
     long double tot = 0;
     for (auto &kv : first) {
